@@ -537,11 +537,11 @@ func verifGenAdjacentTxns() *verifStream {
 	bracket(verifItMulti, "multi", 1)
 	data(1)
 	bracket(verifItExec, "exec", 1)
-	if verifChoose("pingBetween", 2) == 1 {
+	if verifParam("APING", 1) == 1 && verifChoose("pingBetween", 2) == 1 {
 		st.items = append(st.items, verifItem{kind: verifItPing, ce: cmdExecution{Cmd: "ping", Args: []interface{}{}, Offset: nextOff(), Db: -1}})
 	}
 	bracket(verifItMulti, "multi", 2)
-	n2 := verifRange("second", 2, 3)
+	n2 := verifRange("second", 2, verifParam("ASECOND", 3))
 	for i := 0; i < n2; i++ {
 		data(2)
 	}
